@@ -69,20 +69,21 @@ FallBack(s, v, R)  == NameOn(s, v) /\ ~NameBased(s, v, R)
 
 OldE(s, v) == IF v = "no-old" THEN {} ELSE {Norm(s.old[k][1], s.old[k][2]) : k \in DOMAIN s.old}
 
+PairsIn(R) == {p \in R \X R : p[1] < p[2]}
+NamedRes(s, v)    == {R \in Residues(s, v) : NameBased(s, v, R)}
+FallBackRes(s, v) == {R \in Residues(s, v) : FallBack(s, v, R)}
+\* name-based bonds: exactly the block's bonds among the atoms present (by name) in a residue bonded by names
 NameEdges(s, v) ==
   IF v = "no-nameedges" THEN {} ELSE
-  {p \in Pairs(s) : /\ SameRes(s, v, p[1], p[2])
-                    /\ LET R == ResOf(s, v, p[1]) IN
-                       /\ NameBased(s, v, R)
-                       /\ BEdge(BlockOf(s, ResName(s, R)), At(s, p[1]).name, At(s, p[2]).name)}
+  UNION { LET b == BlockOf(s, ResName(s, R)) IN {p \in PairsIn(R) : BEdge(b, At(s, p[1]).name, At(s, p[2]).name)}
+          : R \in NamedRes(s, v) }
+\* non-edges: pairs of present atoms the block knows and does not bond
 NonEdges(s, v) ==
-  {p \in Pairs(s) : /\ SameRes(s, v, p[1], p[2])
-                    /\ LET R  == ResOf(s, v, p[1])
-                           n1 == At(s, p[1]).name
-                           n2 == At(s, p[2]).name IN
-                       /\ NameBased(s, v, R)
-                       /\ LET b == BlockOf(s, ResName(s, R)) IN
-                          n1 \in BNames(b) /\ n2 \in BNames(b) /\ n1 # n2 /\ ~BEdge(b, n1, n2)}
+  UNION { LET b == BlockOf(s, ResName(s, R)) IN
+          {p \in PairsIn(R) : LET n1 == At(s, p[1]).name
+                                  n2 == At(s, p[2]).name
+                              IN n1 \in BNames(b) /\ n2 \in BNames(b) /\ n1 # n2 /\ ~BEdge(b, n1, n2)}
+          : R \in NamedRes(s, v) }
 
 (* ------------------------------------------------------------ distance rule *)
 Sq(x) == x * x
@@ -95,16 +96,19 @@ Rad(v, el) == IF ~Known(el) THEN MinRadius
               ELSE IF v = "se1900" /\ el = "Se" THEN 1900
               ELSE Radius[el] + (IF v = "loose" THEN 3 ELSE IF v = "tight" THEN -3 ELSE 0)
 RSum(s, v, i, j) == Rad(v, At(s, i).el) + Rad(v, At(s, j).el)
-\* d <= (fn/fd) * (ra + rb)/2   <=>   4 d^2 fd^2 <= fn^2 (ra+rb)^2 ; the first conjunct keeps the product in 32 bits
-\* (if d^2 exceeds MAXINT / (4 fd^2) the left side exceeds every representable right side)
-Within(s, v, i, j) == LET L == 4 * s.fd * s.fd IN
-                      /\ D2(s, i, j) <= MAXINT \div L
-                      /\ D2(s, i, j) * L <= s.fn * s.fn * Sq(RSum(s, v, i, j))
+\* d <= (fn/fd) * (ra + rb)/2   <=>   4 fd^2 d^2 <= (fn (ra+rb))^2   <=>   d^2 <= floor(X^2 / g^2),  X = fn (ra+rb), g = 2 fd.
+\* With X = a g + b the floor is a^2 + floor((2 a b g + b^2) / g^2); every intermediate value fits in 32 bits.
+Thr2(s, v, i, j) == LET g == 2 * s.fd
+                        X == s.fn * RSum(s, v, i, j)
+                        a == X \div g
+                        b == X % g
+                    IN a * a + (2 * a * b * g + b * b) \div (g * g)
+Within(s, v, i, j) == D2(s, i, j) <= Thr2(s, v, i, j)
 \* "numerically on the threshold": relative difference of the squares <= 1e-6; such inputs are outside the property
 Near(s, i, j) == /\ Known(At(s, i).el) /\ Known(At(s, j).el)
                  /\ LET L == 4 * s.fd * s.fd
                         T == s.fn * s.fn * Sq(RSum(s, SPEC, i, j)) IN
-                    /\ D2(s, i, j) <= MAXINT \div L
+                    /\ D2(s, i, j) <= MAXINT \div L      \* beyond that the pair is far from any threshold
                     /\ Abs(D2(s, i, j) * L - T) <= T \div 1000000
 AnyNear(s) == \E p \in Pairs(s) : Near(s, p[1], p[2])
 
@@ -123,23 +127,24 @@ Rule(s, v, p, NE, B) == /\ (v = "radii"   \/ CRadii(s, p))
                         /\ (v = "hacross" \/ CNoHAcross(s, v, p))
                         /\ (v = "bonded"  \/ CNotBonded(B, p))
 
-\* which conjuncts fail for a pair (property variant); {} = the pair gets a distance bond when distances are allowed
-Failing(s, p) == LET NE == NonEdges(s, SPEC)
-                     B  == OldE(s, SPEC) \cup NameEdges(s, SPEC) IN
+\* which conjuncts fail for a pair (property variant), given the non-edges NE and the bonds B made before distances
+\* are looked at; {} = the pair gets a distance bond when distances are allowed
+FailingGiven(s, p, NE, B) ==
                  {c \in ConjNames : \/ c = "radii"   /\ ~CRadii(s, p)
                                     \/ c = "within"  /\ ~CWithin(s, SPEC, p)
                                     \/ c = "nonedge" /\ ~CNonEdge(NE, p)
                                     \/ c = "hh"      /\ ~CNotHH(s, p)
                                     \/ c = "hacross" /\ ~CNoHAcross(s, SPEC, p)
                                     \/ c = "bonded"  /\ ~CNotBonded(B, p)}
+Failing(s, p) == FailingGiven(s, p, NonEdges(s, SPEC), OldE(s, SPEC) \cup NameEdges(s, SPEC))
 
 (* ------------------------------------------------- declarative form (statement) *)
 \* distance bonds, given the non-edges NE and the bonds B present before distances are looked at
 DistEdgesGiven(s, v, NE, B) ==
-  LET InFallBack(p) == SameRes(s, v, p[1], p[2]) /\ FallBack(s, v, ResOf(s, v, p[1]))
+  LET FB == UNION {PairsIn(R) : R \in FallBackRes(s, v)}      \* pairs inside fall-back residues
   IN IF s.dist
-     THEN {p \in Pairs(s) : Rule(s, v, p, NE, B) /\ ~(v = "nofallback" /\ InFallBack(p))}
-     ELSE IF v = "fallback-nodist" THEN {p \in Pairs(s) : InFallBack(p) /\ Rule(s, v, p, {}, B)}
+     THEN {p \in Pairs(s) : Rule(s, v, p, NE, B) /\ ~(v = "nofallback" /\ p \in FB)}
+     ELSE IF v = "fallback-nodist" THEN {p \in FB : Rule(s, v, p, {}, B)}
      ELSE {}
 DistEdges(s, v) == DistEdgesGiven(s, v, NonEdges(s, v), OldE(s, v) \cup NameEdges(s, v))
 Edges(s, v)     == OldE(s, v) \cup NameEdges(s, v) \cup DistEdges(s, v)
@@ -148,17 +153,15 @@ WithD2(s, P)    == {<<p[1], p[2], D2(s, p[1], p[2])>> : p \in P}
 DistAttr(s, v)  == WithD2(s, NameEdges(s, v) \cup DistEdges(s, v))
 
 (* ------------------------------- operational form (order of the implementation) *)
-OpP1(s) == OldE(s, SPEC) \cup NameEdges(s, SPEC)                       \* loop over residues: edges by name
-OpFB(s) == IF s.name /\ s.dist                                          \* ... or, in the same loop, the fall-back
-           THEN {p \in Pairs(s) : /\ SameRes(s, SPEC, p[1], p[2])
-                                  /\ ~NameBased(s, SPEC, ResOf(s, SPEC, p[1]))
-                                  /\ Rule(s, SPEC, p, {}, OpP1(s))}
-           ELSE {}
-OpGL(s) == IF s.dist                                                    \* global pass, sees everything made so far
-           THEN {p \in Pairs(s) : Rule(s, SPEC, p, NonEdges(s, SPEC), OpP1(s) \cup OpFB(s))}
-           ELSE {}
-OpEdges(s)    == OpP1(s) \cup OpFB(s) \cup OpGL(s)
-OpDistAttr(s) == WithD2(s, NameEdges(s, SPEC) \cup OpFB(s) \cup OpGL(s))
+OpOut(s) ==
+  LET NE == NonEdges(s, SPEC)                                            \* gathered in the loop over residues
+      P1 == OldE(s, SPEC) \cup NameEdges(s, SPEC)                        \* loop over residues: edges by name ...
+      FB == IF s.name /\ s.dist                                          \* ... or, in the same loop, the fall-back
+            THEN {p \in UNION {PairsIn(R) : R \in FallBackRes(s, SPEC)} : Rule(s, SPEC, p, {}, P1)}
+            ELSE {}
+      P2 == P1 \cup FB
+      GL == IF s.dist THEN {p \in Pairs(s) : Rule(s, SPEC, p, NE, P2)} ELSE {}   \* global pass sees everything so far
+  IN [edges |-> P2 \cup GL, dist |-> WithD2(s, NameEdges(s, SPEC) \cup FB \cup GL)]
 
 (* ------------------------------------------------------------ molecule split *)
 UnitAdj(E, U, W) == U # W /\ \E p \in E : (p[1] \in U /\ p[2] \in W) \/ (p[2] \in U /\ p[1] \in W)
@@ -255,7 +258,7 @@ GuessedObeyCriteria_ ==   \* every bond that is neither old nor from a block sat
   \A p \in out.edges \ (OldE(sys, SPEC) \cup NameEdges(sys, SPEC)) :
      /\ sys.dist /\ CRadii(sys, p) /\ Within(sys, SPEC, p[1], p[2]) /\ CNotHH(sys, p) /\ CNoHAcross(sys, SPEC, p)
 NothingWithoutMode_ == (~sys.name /\ ~sys.dist) => out.edges = OldE(sys, SPEC)
-OpIsDecl_      == OpEdges(sys) = out.edges /\ OpDistAttr(sys) = out.dist
+OpIsDecl_      == OpOut(sys).edges = out.edges /\ OpOut(sys).dist = out.dist
 DistOnlyOnNew_ == \A t \in out.dist : <<t[1], t[2]>> \in out.edges
 Partition == Done => Partition_
 ResiduesWhole == Done => ResiduesWhole_
